@@ -160,7 +160,9 @@ def coq_build(prop, cfg):
     rc, out = sh(["timeout", "1500", "make", "-j16"] + targets, cwd=COQ, timeout=1600)
     res = {"model_ok": rc == 0, "model_log": out[-3000:]}
     # dependencies of the Props file (proof files)
-    rc2, out2 = sh(["timeout", "1500", "make", "-j16", "theories/Props/%s.vo" % prop], cwd=COQ, timeout=1600)
+    # (the whole development is built by --setup; what is rebuilt here are the files that depend on regenerated sources.
+    # A proof that does not finish within 10 minutes counts as broken - a failing proof search must not stall the check.)
+    rc2, out2 = sh(["timeout", "600", "make", "-j16", "theories/Props/%s.vo" % prop], cwd=COQ, timeout=700)
     # always re-run coqc on the Props file to capture Print Assumptions (1-2 s)
     rc3, out3 = sh(["timeout", "600", "coqc", "-Q", "theories", "Echo", "theories/Props/%s.v" % prop], cwd=COQ,
                    timeout=700)
